@@ -853,6 +853,8 @@ def run(prog):
     out += numeric_laws(prog, SR + "rational::RationalSemiring")
     out += boolean_laws(prog)
     out += field_laws(prog)
+    from . import mm
+    out += mm.run(prog)
     out += polynomial_laws(prog)
     out += lattice_laws(prog)
     out += equality_laws(prog)
